@@ -8,6 +8,7 @@
 (*   property: every derived sequent is well-typed and valid in every finite standard   *)
 (*             model with |tyvar| <= N (HolSem), and is not  |- false-like (!A. A)       *)
 EXTENDS C01_Rules
+CONSTANT ExtraInst   \* TRUE: after MaxRound full rounds, one more round of the instantiation rules alone
 VARIABLES thms, round, log
 vars == <<thms, round, log>>
 Init == thms = {} /\ round = 0 /\ log = {}
@@ -20,11 +21,19 @@ Saturate == /\ round < MaxRound
 ToJ(a) == [rule |-> a.rule, arg |-> a.arg,
            prems |-> [i \in 1..Len(a.prems) |-> [h |-> SetToSeq(a.prems[i].h), c |-> a.prems[i].c]],
            expected |-> IF IsErrS(a.res) THEN [h |-> <<>>, c |-> NoArg] ELSE [h |-> SetToSeq(a.res.h), c |-> a.res.c]]
-Emit == /\ round = MaxRound
+\* one more round, instantiation rules only (a full round is quadratic in |thms|): reaches instantiations of sequents
+\* whose derivation already took MaxRound rule applications (e.g. two assumptions joined by implies_intr/implies_elim)
+SaturateInst == /\ ExtraInst /\ round = MaxRound
+                /\ LET atts == InstAttempts(thms) IN
+                   /\ thms' = thms \cup { a.res : a \in { a \in atts : Keep(a.res) } }
+                   /\ log' = log \cup { a \in atts : ~IsErrS(a.res) }
+                /\ round' = round + 1
+LastRound == MaxRound + (IF ExtraInst THEN 1 ELSE 0)
+Emit == /\ round = LastRound
         /\ LET ls == SetToSeq(log) IN ndJsonSerialize(IOEnv.VECTOR_FILE, [i \in 1..Len(ls) |-> ToJ(ls[i])])
         /\ PrintT(<<"vectors", Cardinality(log), "thms", Cardinality(thms)>>)
         /\ round' = round + 1 /\ UNCHANGED <<thms, log>>
-Next == Saturate \/ Emit
+Next == Saturate \/ SaturateInst \/ Emit
 Spec == Init /\ [][Next]_vars
 
 \* ---------------------------------------------------------------- properties
@@ -34,7 +43,7 @@ AllValid == \A th \in thms : Examinable(th, N) => Valid(th, N)
 FalseLike == { Forall(vA, vA), Forall(sP, sP) }
 NoFalse == \A th \in thms : ~(th.h = {} /\ th.c \in FalseLike)
 \* vacuity guards (checked as invariants of the final state through the constraint below)
-NonVacuous == round = MaxRound + 1 => /\ Cardinality(thms) > 50
+NonVacuous == round = LastRound + 1 => /\ Cardinality(thms) > 50
                                      /\ \E th \in thms : IsAll(th.c) /\ th.h # {}
                                      /\ \E t2 \in thms : \E x \in t2.h : SVarsOf(x) # {}
 =============================================================================
